@@ -378,3 +378,42 @@ func (in *interp) deepEqTerm(a, b value, T types.Type, depth int) *term {
 	}
 	panic(unsupported(fmt.Sprintf("deepEqTerm on %s", T)))
 }
+
+// verifPieces(s string) []verifPiece: the structure of a formatted string —
+// literal pieces and formatted integers — so that a harness can inspect tab
+// stops of a snippet whose placeholder numbers are symbolic.
+func init() {
+	extraIntrinsics["verifPieces"] = func(in *interp, fr *frame, fn *ssa.Function, args []value) value {
+		t := strTerm(args[0])
+		var out []value
+		add := func(lit string) {
+			if n := len(out); n > 0 {
+				if st := out[n-1].(structure); st[2] == false {
+					st[0] = st[0].(string) + lit
+					return
+				}
+			}
+			out = append(out, structure{lit, 0, false})
+		}
+		var walk func(t *term)
+		walk = func(t *term) {
+			switch {
+			case t.isConst():
+				add(t.s)
+			case t.op == "str.++":
+				for _, a := range t.args {
+					walk(a)
+				}
+			case t.op == "str.from_int":
+				out = append(out, structure{"", intVal(t.args[0], types.Int), true})
+			case t.op == "ite" && len(t.args) == 3 && t.args[2].op == "str.from_int":
+				// fmtInt: ite(x<0, "-"++from_int(-x), from_int(x))
+				out = append(out, structure{"", intVal(t.args[2].args[0], types.Int), true})
+			default:
+				panic(unsupported("verifPieces: a piece that is neither a literal nor a formatted integer: " + t.op))
+			}
+		}
+		walk(t)
+		return out
+	}
+}
